@@ -318,15 +318,15 @@ def fp_lemmas(job):
 
 def jobs(tier):
     js = [dict(name=f'fp:index_frequency_conversions:L{w}', kind='fp', fn='fp_lemmas', which=(w,), timeout_s=150 if tier == 'quick' else 600,
-               cost=1000, budget_s=300 if tier == 'quick' else 1500) for w in (1, 2, 3)]
+               cost=1000, budget_s=300 if tier == 'quick' else 600) for w in (1, 2, 3)]
     for n in ([2] if tier == 'quick' else [2, 3]):
         js.append(dict(name=f'H15a:align_grids:{n}oms', fn='h_align', params=dict(n_oms=n), witness_every=5, cost=100 * n))
     for shape in ('one_band_two_amps', 'two_bands', 'two_then_one'):
         js.append(dict(name=f'H15b:oms_bitmap:{shape}', fn='h_oms_bitmap', params=dict(shape=shape, R=3 if tier == 'quick' else 6), witness_every=20,
-                       budget_s=200 if tier == 'quick' else 1200, cost=500))
+                       budget_s=200 if tier == 'quick' else 600, cost=500))
     for modes in itertools.product(('both', 'forward_only', 'backward_only'), ('both', 'forward_only', 'backward_only', 'absent'),
                                    ('both', 'backward_only', 'absent')):
         js.append(dict(name=f'H15c:partition:AB={modes[0]},BC={modes[1]},AC={modes[2]}', fn='h_partition',
                        params=dict(modes=modes, widths=(-6, -5, 5, 6) if tier == 'quick' else (-8, -4, 4, 8)), witness_every=10,
-                       budget_s=150 if tier == 'quick' else 1200, cost=50))
+                       budget_s=150 if tier == 'quick' else 600, cost=50))
     return js
